@@ -363,6 +363,10 @@ class Driver:
                 g_mem = M.expected(r.ref, db, rp, mst, kind, params, with_ghost="mem")
                 if after_restart and g_mem != exp and got == g_mem:
                     return "dropped_series_unflushed_rows_back_after_restart"
+                if got == g_all and after_restart and r.h["cont"] == "kill_now":
+                    # the whole drop is undone by the kill (every read shape returns the buried series again); checked before
+                    # the scan-specific names below, which describe the same rows for the unfiltered shapes
+                    return "drop_series_lost_by_kill_right_after_ack"
                 if name in M.UNFILTERED and (
                         got == M.expected(r.ref, db, rp, mst, kind, params, with_ghost="all", ghost_bypass=True) or
                         (after_restart and got == M.expected(r.ref, db, rp, mst, kind, params, with_ghost="all", ghost_bypass="flushed"))):
